@@ -3,6 +3,7 @@ package main
 import (
 	"fmt"
 	"math/big"
+	"strings"
 
 	sdkmath "cosmossdk.io/math"
 	sdk "github.com/cosmos/cosmos-sdk/types"
@@ -16,7 +17,11 @@ import (
 	"fxverif/lib"
 )
 
-func (e *env) outcallProbe() {
+// Outgoing bridge calls coming back: BridgeCallResult claims (success / failure / unknown nonce) and time-outs, which the
+// clean-up inside TryAttestation refunds at the next observed event.  The call is made through the real bridgeCall precompile
+// by an ordinary account; the refund address is the caller's own, or an address the bank refuses to credit (any caller may
+// name one), and the token pair / the erc20 module may have been switched off by governance in between.
+func (e *env) outgoingCallCases() []string {
 	c, x := e.c, e.x
 	k := x.Keeper
 	S, _ := c.Ctx.CacheContext()
@@ -31,54 +36,154 @@ func (e *env) outcallProbe() {
 	_, err := c.App.Erc20Keeper.ConvertCoin(S, &erc20types.MsgConvertCoin{Coin: coins[0], Receiver: U.Hex().Hex(), Sender: U.Acc().String()})
 	lib.Must(err)
 	blocked := common.BytesToAddress(authtypes.NewModuleAddress(authtypes.FeeCollectorName))
-	show := func(ctx sdk.Context, tag string, refund common.Address) {
-		n := 0
-		k.IterateOutgoingBridgeCalls(ctx, func(*crosschaintypes.OutgoingBridgeCall) bool { n++; return false })
-		fmt.Printf("%s: U erc=%s base=%s | refund erc=%s base=%s bridge=%s | calls=%d lastObserved=%d\n", tag, tok.BalanceOf(c, ctx, t.Erc20, U.Hex()), tok.Bank(c, ctx, U.Acc(), t.Base),
-			tok.BalanceOf(c, ctx, t.Erc20, refund), tok.Bank(c, ctx, refund.Bytes(), t.Base), tok.Bank(c, ctx, refund.Bytes(), t.BridgeDenom), n, k.GetLastObservedEventNonce(ctx))
-	}
-	for _, sc := range []struct {
+	const amount = 100
+
+	type scen struct {
 		name    string
-		refund  common.Address
-		disable bool
-		result  string // "ok" | "fail" | "timeout"
-	}{
-		{"result-ok", U.Hex(), false, "ok"}, {"result-fail", U.Hex(), false, "fail"}, {"result-fail-pair-off", U.Hex(), true, "fail"},
-		{"result-fail-blocked-refund", blocked, false, "fail"}, {"timeout", U.Hex(), false, "timeout"}, {"timeout-pair-off", U.Hex(), true, "timeout"},
-		{"timeout-blocked-refund", blocked, false, "timeout"},
-	} {
+		kind    int64  // model kind: 0 result ok, 1 result fail, 2 timeout at an event whose handler succeeds, 3 … fails (tolerated)
+		refund  string // "self" | "blocked"
+		off     string // "" | "pair" | "erc20"
+		unknown bool   // the result claim names a nonce that does not exist
+	}
+	scens := []scen{
+		{"result-success", 0, "self", "", false},
+		{"result-failure", 1, "self", "", false},
+		{"result-failure-pair-off", 1, "self", "pair", false},
+		{"result-failure-erc20-off", 1, "self", "erc20", false},
+		{"result-failure-blocked-refund", 1, "blocked", "", false},
+		{"result-failure-unknown-nonce", 1, "self", "", true},
+		{"timeout-at-ok-event", 2, "self", "", false},
+		{"timeout-at-failing-event", 3, "self", "", false},
+		{"timeout-at-failing-event-pair-off", 3, "self", "pair", false},
+		{"timeout-at-ok-event-erc20-off", 2, "self", "erc20", false},
+		{"timeout-at-failing-event-blocked-refund", 3, "blocked", "", false},
+		{"timeout-at-ok-event-blocked-refund", 2, "blocked", "", false},
+	}
+	countCalls := func(ctx sdk.Context) int64 {
+		n := int64(0)
+		k.IterateOutgoingBridgeCalls(ctx, func(*crosschaintypes.OutgoingBridgeCall) bool { n++; return false })
+		return n
+	}
+	var out []string
+	for _, sc := range scens {
 		B, _ := S.CacheContext()
-		input, err := crosschaintypes.GetABI().Pack("bridgeCall", "eth", sc.refund, []common.Address{t.Erc20}, []*big.Int{big.NewInt(100)}, common.HexToAddress("0x01"), []byte{}, big.NewInt(0), []byte{})
+		refund := U.Hex()
+		if sc.refund == "blocked" {
+			refund = blocked
+		}
+		input, err := crosschaintypes.GetABI().Pack("bridgeCall", "eth", refund, []common.Address{t.Erc20}, []*big.Int{big.NewInt(amount)}, common.HexToAddress("0x01"), []byte{}, big.NewInt(0), []byte{})
 		lib.Must(err)
 		pre := lib.CrosschainPrecompile
-		c.EvmCall(B, U.Hex(), &t.Erc20, nil, 1_000_000, append([]byte{0x09, 0x5e, 0xa7, 0xb3}, append(common.LeftPadBytes(pre.Bytes(), 32), common.LeftPadBytes(big.NewInt(100).Bytes(), 32)...)...))
-		res := c.EvmCall(B, U.Hex(), &pre, nil, 3_000_000, input)
-		fmt.Println("==", sc.name, "bridgeCall failed:", res.Failed, res.VmError, res.Err)
-		show(B, " after call", sc.refund)
+		if res := c.EvmCall(B, U.Hex(), &pre, nil, 3_000_000, input); res.Failed || res.Err != nil {
+			panic(fmt.Sprintf("bridgeCall refused: %v %v", res.VmError, res.Err))
+		}
 		var oc *crosschaintypes.OutgoingBridgeCall
 		k.IterateOutgoingBridgeCalls(B, func(o *crosschaintypes.OutgoingBridgeCall) bool { oc = o; return true })
-		if oc == nil {
-			continue
-		}
-		if sc.disable {
+		switch sc.off {
+		case "pair":
 			tok.SetEnabled(c, B, t, false)
+		case "erc20":
+			p := c.App.Erc20Keeper.GetParams(B)
+			p.EnableErc20 = false
+			_, err := c.App.Erc20Keeper.UpdateParams(B, &erc20types.MsgUpdateParams{Authority: lib.GovAuthority(), Params: p})
+			lib.Must(err)
 		}
-		if sc.result == "timeout" {
-			// any event reporting an external height beyond the call's timeout
-			claim := &crosschaintypes.MsgSendToFxClaim{TokenContract: e.toks[0].Contract, Amount: sdkmath.NewInt(1), Sender: U.Hex().Hex(), Receiver: U.Acc().String()}
-			n := k.GetLastObservedEventNonce(B) + 1
-			setNonce(claim, n, oc.Timeout+10)
-			var errs []error
-			for _, o := range x.Oracles {
-				errs = append(errs, e.vote(B, o, cloneClaim(claim)))
+		payable := sc.refund == "self" && sc.off == ""
+		refundErc := func(ctx sdk.Context) *big.Int { return tok.BalanceOf(c, ctx, t.Erc20, refund) }
+		erc0 := refundErc(B)
+		cls := int64(0)
+		var preDump, post map[string][]string
+
+		if sc.kind < 2 {
+			nonce := oc.Nonce
+			if sc.unknown {
+				nonce = 999
 			}
-			fmt.Println(" votes:", errs)
+			claim := &crosschaintypes.MsgBridgeCallResultClaim{Nonce: nonce, TxOrigin: U.Hex().Hex(), Success: sc.kind == 0, Cause: "reverted"}
+			ev := e.observe(B, claim)
+			preDump = c.DumpAll(B)
+			B1, _ := B.CacheContext()
+			err := tryOn(B1, func(ctx sdk.Context) error { return k.ExecuteClaim(ctx, ev) })
+			post = c.DumpAll(B1)
+			if err != nil {
+				cls = 2
+				if d := lib.DiffDumps(preDump, post); len(d) > 0 {
+					e.failSig(lib.Failure{Kind: "monitor", Sig: "C18:outcall:" + sc.name + ":failed-tx-left-writes", What: "a BridgeCallResult claim whose execution failed left writes behind",
+						Replay: map[string]interface{}{"scenario": sc.name, "diff": d}})
+				}
+			} else {
+				// designated: claim consumed, (refund on failure,) record removed — with the keeper's own primitives
+				B2, _ := B.CacheContext()
+				k.DeletePendingExecuteClaim(B2, ev)
+				k.CreateBridgeAccount(B2, claim.TxOrigin)
+				if sc.kind == 1 {
+					k.HandleOutgoingBridgeCallRefund(B2, oc)
+				}
+				k.DeleteOutgoingBridgeCallRecord(B2, oc.Nonce)
+				if d := lib.DiffDumps(c.DumpAll(B2), post); len(d) > 0 {
+					e.failSig(lib.Failure{Kind: "monitor", Sig: "C18:outcall:" + sc.name, What: "state after a BridgeCallResult claim differs from its designated outcome",
+						Replay: map[string]interface{}{"scenario": sc.name, "diff(-designated,+real)": d}})
+				}
+			}
+			out = append(out, fmt.Sprintf("mk_oc_case %d %s %s %d %d %d", sc.kind, lib.Bool(payable), lib.Bool(!sc.unknown), cls, countCalls(B1),
+				new(big.Int).Div(new(big.Int).Sub(refundErc(B1), erc0), big.NewInt(amount)).Int64()))
 		} else {
-			claim := &crosschaintypes.MsgBridgeCallResultClaim{Nonce: oc.Nonce, TxOrigin: U.Hex().Hex(), Success: sc.result == "ok", Cause: "x"}
-			nonce := e.observe(B, claim)
-			err := tryOn(B, func(ctx sdk.Context) error { return k.ExecuteClaim(ctx, nonce) })
-			fmt.Println(" execute:", err)
+			// an event that reports an external height beyond the call's timeout; its own handler succeeds (send-to-fx) or fails
+			// in the tolerated way (bridge-token claim for a token that exists)
+			var claim crosschaintypes.ExternalClaim = &crosschaintypes.MsgSendToFxClaim{TokenContract: e.toks[0].Contract, Amount: sdkmath.NewInt(1), Sender: U.Hex().Hex(), Receiver: U.Acc().String()}
+			if sc.kind == 3 {
+				claim = &crosschaintypes.MsgBridgeTokenClaim{TokenContract: e.toks[0].Contract, Name: "Tok", Symbol: "TOK", Decimals: 18}
+			}
+			ev := k.GetLastObservedEventNonce(B) + 1
+			setNonce(claim, ev, oc.Timeout+10)
+			last := x.Oracles[len(x.Oracles)-1]
+			for _, o := range x.Oracles[:len(x.Oracles)-1] {
+				lib.Must(e.vote(B, o, cloneClaim(claim)))
+			}
+			preDump = c.DumpAll(B)
+			B1, _ := B.CacheContext()
+			verr := e.vote(B1, last, cloneClaim(claim))
+			post = c.DumpAll(B1)
+			if verr != nil {
+				if !strings.Contains(verr.Error(), "PANIC") {
+					panic("vote refused: " + verr.Error())
+				}
+				cls = 2
+				// the property: an observed event (handler failing or not) ends with the event marked observed; here the whole
+				// vote transaction is lost because an unrelated, timed-out call cannot be refunded
+				e.failSig(lib.Failure{Kind: "monitor", Sig: "C18:attestation:cleanup-panic:" + sc.name,
+					What: "the vote that makes an event observed fails as a whole because the refund of a timed-out outgoing bridge call panics: the event is not marked observed (and no later one can be)",
+					Replay: map[string]interface{}{"scenario": sc.name, "refund_address": refund.Hex(), "switched_off": sc.off, "panic": trunc(verr.Error(), 200),
+						"last_observed_event_nonce": k.GetLastObservedEventNonce(B1), "outgoing_calls": countCalls(B1), "state_changed": len(lib.DiffDumps(preDump, post)) > 0}})
+			} else {
+				if sc.kind == 3 {
+					cls = 1
+					B2, _ := B.CacheContext()
+					att := k.GetAttestation(B2, ev, claim.ClaimHash())
+					att.Votes = append(att.Votes, last.Oracle.Acc().String())
+					att.Observed = true
+					k.SetLastObservedEventNonce(B2, ev)
+					k.SetLastObservedBlockHeight(B2, claim.GetBlockHeight(), uint64(B2.BlockHeight()))
+					k.SetAttestation(B2, ev, claim.ClaimHash(), att)
+					// the call is refunded and removed — if its refund can be paid; otherwise it simply stays
+					_ = tryOn(B2, func(ctx sdk.Context) error {
+						k.HandleOutgoingBridgeCallRefund(ctx, oc)
+						k.DeleteOutgoingBridgeCallRecord(ctx, oc.Nonce)
+						return nil
+					})
+					k.SetLastEventNonceByOracle(B2, last.Oracle.Acc(), ev)
+					k.SetLastEventBlockHeightByOracle(B2, last.Oracle.Acc(), claim.GetBlockHeight())
+					if d := lib.DiffDumps(c.DumpAll(B2), post); len(d) > 0 {
+						e.failSig(lib.Failure{Kind: "monitor", Sig: "C18:outcall:" + sc.name, What: "state after a failed event that coincides with a timed-out outgoing call differs from 'event observed + call refunded and removed'",
+							Replay: map[string]interface{}{"scenario": sc.name, "diff(-designated,+real)": d}})
+					}
+				}
+			}
+			out = append(out, fmt.Sprintf("mk_oc_case %d %s true %d %d %d", sc.kind, lib.Bool(payable), cls, countCalls(B1),
+				new(big.Int).Div(new(big.Int).Sub(refundErc(B1), erc0), big.NewInt(amount)).Int64()))
 		}
-		show(B, " after", sc.refund)
+		e.rep.Case("outcall:"+sc.name, cls == 2 || sc.kind == 3)
+		e.rep.Count(fmt.Sprintf("outcall:%s:class=%d", sc.name, cls))
 	}
+	return out
 }
